@@ -7,6 +7,7 @@
 -/
 import NiftyVerif.Gen.ModeTables
 import NiftyVerif.Model.OpAlgebra
+import NiftyVerif.Lemmas.OpAlgebra
 
 namespace NiftyVerif.C01
 open NiftyVerif.Gen.ModeTables NiftyVerif.OpAlgebra
@@ -76,5 +77,170 @@ theorem diag_kind_specs :
     diagApplyKind.length = 4 ∧ diagActualKind.length = 4 ∧
     (∀ b, b < 4 → diagApplyKind.getD b (false, false) = (decide (b &&& 1 = 1), decide (b &&& 2 = 2))) ∧
     (∀ b, b < 4 → diagActualKind.getD b (false, false) = (decide (b &&& 1 = 1), decide (b &&& 2 = 2))) := by decide
+
+
+/-! ### Part 2 — dense action of the operator classes (Mathlib matrices over any star field, any index type)
+
+`S = msem …` interprets every operator in the star algebra `Matrix X X K` (block embedding of all domains into one
+index type `X`; the identity of every domain is interpreted as `1`), diagonal data as functions `X → K`.
+`modeScalar c s` / `modeDiag d s`: conjugate when bit 0 of `s` is set, reciprocal when bit 1 is set. -/
+
+section matrix
+open Matrix
+set_option linter.unusedSectionVars false
+variable {X K : Type} [Fintype X] [DecidableEq X] [Field K] [StarRing K] [DecidableEq K]
+variable (isReal : K → Bool) (re : K → K) (blocks : Nat → List (Matrix X X K) → Matrix X X K)
+  (leaf : Nat → Nat → Matrix X X K)
+
+local notation "S" => msem isReal re blocks leaf
+
+/-- ScalingOperator.apply: `c`, conjugated in adjoint modes, inverted in inverse modes (including the `c = 1` and
+    `c = 0` shortcuts of the code, which agree with the formula because `star 1 = 1`, `0⁻¹ = 0`) -/
+theorem den_scaling (d : Nat) (c : K) (dt s : Nat) (hs : s < 4) :
+    den S (Op.scaling d c dt) (1 <<< s) = modeScalar c s • (1 : Matrix X X K) := by
+  unfold den scalingFactor
+  rw [adjMask_eval s hs, invMask_eval s hs]
+  by_cases h1 : c = 1
+  · subst h1; interval_cases s <;> simp [msem, modeScalar]
+  · by_cases h0 : c = 0
+    · subst h0; interval_cases s <;> simp [msem, modeScalar]
+    · interval_cases s <;> simp [msem, modeScalar, h1, h0]
+
+/-- DiagonalOperator.apply with pending transformation `t`: branch `s xor t` -/
+theorem den_diag (dm : Nat) (d : X → K) (t dt s : Nat) (ht : t < 4) (hs : s < 4) :
+    den S (Op.diag dm d t dt) (1 <<< s) = Matrix.diagonal (modeDiag d (s ^^^ t)) := by
+  unfold den
+  rw [diagTrafo_eval t ht s hs, diagBranch_msem _ _ _ _ _ _ (xor_lt4 s hs t ht)]
+  rfl
+
+/-- OperatorAdapter.apply: mode `s` of the adapter is mode `s xor t` of the operand -/
+theorem den_adapter (o : Op K (X → K)) (t s : Nat) (ht : t < 4) (hs : s < 4) :
+    den S (Op.adapter o t) (1 <<< s) = den S o (1 <<< (s ^^^ t)) := by
+  rw [den, adapterApplyMode_eval t ht s hs]
+
+/-- ChainOperator.apply: the matrix product in list order for TIMES and ADJOINT_INVERSE_TIMES, in reversed order
+    exactly for ADJOINT_TIMES and INVERSE_TIMES -/
+theorem den_chain (ops : List (Op K (X → K))) (s : Nat) (hs : s < 4) (hne : ops ≠ []) :
+    den S (Op.chain ops) (1 <<< s) =
+      if s &&& 1 = (s >>> 1) &&& 1 then (ops.map (den S · (1 <<< s))).prod
+      else (ops.map (den S · (1 <<< s))).reverse.prod := by
+  rw [den]
+  rw [chainOrder_eval s hs]
+  have hne' : ops.map (den S · (1 <<< s)) ≠ [] := by simpa using hne
+  by_cases h : s &&& 1 = (s >>> 1) &&& 1
+  · simp only [h, decide_true, Bool.not_true, Bool.false_eq_true, if_false, if_true]
+    exact prodR_msem _ _ _ _ _ hne'
+  · simp only [h, decide_false, Bool.not_false, if_true, if_false]
+    exact prodR_msem _ _ _ _ _ (by simpa using hne)
+
+/-- SumOperator.apply: the signed sum of the summands' actions -/
+theorem den_sum (ops : List (Op K (X → K))) (neg : List Bool) (m : Nat) (hne : ops ≠ []) (hneg : neg ≠ []) :
+    den S (Op.sum ops neg) m = signedSum ((ops.map (den S · m)).zip neg) := by
+  rw [den]
+  apply sumR_msem
+  cases ops with
+  | nil => exact absurd rfl hne
+  | cons o os => cases neg with
+    | nil => exact absurd rfl hneg
+    | cons n ns => simp
+
+/-- SandwichOperator.apply delegates to the chain built by `make`; NullOperator is zero; a missing block entry is unity -/
+theorem den_sandwich (b c o : Op K (X → K)) (m : Nat) : den S (Op.sandwich b c o) m = den S o m := by rw [den]
+theorem den_null (d t m : Nat) : den S (Op.null d t : Op K (X → K)) m = 0 := by
+  rw [den]; split <;> rfl
+theorem den_idEntry (d m : Nat) : den S (Op.idEntry d : Op K (X → K)) m = 1 := by rw [den]; rfl
+
+/-! ### Part 3 — the rewriting rules of the simplifiers preserve the action -/
+
+/-- `_scale(f)`: every mode of the rescaled diagonal is the mode-scalar times the original (trafo is reset to 0) -/
+theorem diagScale_sound (dm : Nat) (d : X → K) (t dt : Nat) (f : K) (s : Nat) (ht : t < 4) (hs : s < 4) :
+    den S (diagScale S (Op.diag dm d t dt) f) (1 <<< s) = modeScalar f s • den S (Op.diag dm d t dt) (1 <<< s) := by
+  unfold diagScale
+  rw [den_diag _ _ _ _ _ _ _ _ _ (by decide) hs, den_diag _ _ _ _ _ _ _ _ _ ht hs, actualDiag_msem _ _ _ _ _ _ ht]
+  have : (msem isReal re blocks leaf).dscale (modeDiag d t) f = modeDiag d t * fun _ => f := rfl
+  rw [this, Nat.xor_zero, modeDiag_mul _ _ _ hs, modeDiag_modeDiag _ _ _ hs ht, modeDiag_const _ _ hs]
+  ext i j
+  by_cases hij : i = j <;> simp [Matrix.diagonal, hij, mul_comm]
+
+/-- `_combine_prod`: adjacent diagonals of a chain merge into the product, in every mode (diagonals commute, so the
+    order reversal of the adjoint/inverse modes is immaterial) -/
+theorem diagCombineProd_sound (dm dm2 : Nat) (d1 d2 : X → K) (t1 t2 dt1 dt2 s : Nat) (h1 : t1 < 4) (h2 : t2 < 4) (hs : s < 4) :
+    den S (diagCombineProd S (Op.diag dm d1 t1 dt1) (Op.diag dm2 d2 t2 dt2)) (1 <<< s) =
+      den S (Op.diag dm d1 t1 dt1) (1 <<< s) * den S (Op.diag dm2 d2 t2 dt2) (1 <<< s) := by
+  unfold diagCombineProd
+  rw [den_diag _ _ _ _ _ _ _ _ _ (by decide) hs, den_diag _ _ _ _ _ _ _ _ _ h1 hs, den_diag _ _ _ _ _ _ _ _ _ h2 hs,
+    actualDiag_msem _ _ _ _ _ _ h1, actualDiag_msem _ _ _ _ _ _ h2]
+  have : (msem isReal re blocks leaf).dmul (modeDiag d1 t1) (modeDiag d2 t2) = modeDiag d1 t1 * modeDiag d2 t2 := rfl
+  rw [this, Nat.xor_zero, modeDiag_mul _ _ _ hs, modeDiag_modeDiag _ _ _ hs h1, modeDiag_modeDiag _ _ _ hs h2,
+    Matrix.diagonal_mul_diagonal]
+  rfl
+
+theorem diagCombineProd_comm (dm dm2 : Nat) (d1 d2 : X → K) (t1 t2 dt1 dt2 s : Nat) (h1 : t1 < 4) (h2 : t2 < 4) (hs : s < 4) :
+    den S (Op.diag dm d1 t1 dt1) (1 <<< s) * den S (Op.diag dm2 d2 t2 dt2) (1 <<< s) =
+      den S (Op.diag dm2 d2 t2 dt2) (1 <<< s) * den S (Op.diag dm d1 t1 dt1) (1 <<< s) := by
+  rw [den_diag _ _ _ _ _ _ _ _ _ h1 hs, den_diag _ _ _ _ _ _ _ _ _ h2 hs, Matrix.diagonal_mul_diagonal,
+    Matrix.diagonal_mul_diagonal]
+  congr 1; funext i; exact mul_comm _ _
+
+/-- `_add(c)` (scaling absorbed into a diagonal of a sum): in the two modes a sum advertises -/
+theorem diagAdd_sound (dm : Nat) (d : X → K) (t dt : Nat) (c : K) (s : Nat) (ht : t < 4) (hs : s < 2) :
+    den S (diagAdd S (Op.diag dm d t dt) c) (1 <<< s) =
+      den S (Op.diag dm d t dt) (1 <<< s) + modeScalar c s • (1 : Matrix X X K) := by
+  have hs4 : s < 4 := by omega
+  unfold diagAdd
+  rw [den_diag _ _ _ _ _ _ _ _ _ (by decide) hs4, den_diag _ _ _ _ _ _ _ _ _ ht hs4, actualDiag_msem _ _ _ _ _ _ ht]
+  have : (msem isReal re blocks leaf).dshift (modeDiag d t) c = modeDiag d t + fun _ => c := rfl
+  rw [this, Nat.xor_zero, modeDiag_add _ _ _ hs, modeDiag_modeDiag _ _ _ hs4 ht, modeDiag_const _ _ hs4]
+  ext i j
+  by_cases hij : i = j <;> simp [Matrix.diagonal, hij]
+
+/-- `_combine_sum`: two diagonals of a sum merge into the signed sum (result sign: plus) -/
+theorem diagCombineSum_sound (dm dm2 : Nat) (d1 d2 : X → K) (t1 t2 dt1 dt2 : Nat) (n1 n2 : Bool) (s : Nat)
+    (h1 : t1 < 4) (h2 : t2 < 4) (hs : s < 2) :
+    den S (diagCombineSum S (Op.diag dm d1 t1 dt1) (Op.diag dm2 d2 t2 dt2) n1 n2) (1 <<< s) =
+      (if n1 then - den S (Op.diag dm d1 t1 dt1) (1 <<< s) else den S (Op.diag dm d1 t1 dt1) (1 <<< s)) +
+      (if n2 then - den S (Op.diag dm2 d2 t2 dt2) (1 <<< s) else den S (Op.diag dm2 d2 t2 dt2) (1 <<< s)) := by
+  have hs4 : s < 4 := by omega
+  unfold diagCombineSum
+  rw [den_diag _ _ _ _ _ _ _ _ _ (by decide) hs4, den_diag _ _ _ _ _ _ _ _ _ h1 hs4, den_diag _ _ _ _ _ _ _ _ _ h2 hs4,
+    actualDiag_msem _ _ _ _ _ _ h1, actualDiag_msem _ _ _ _ _ _ h2, Nat.xor_zero]
+  cases n1 <;> cases n2 <;>
+    simp only [Bool.false_eq_true, if_false, if_true] <;>
+    (show Matrix.diagonal (modeDiag (_ + _) s) = _) <;>
+    rw [modeDiag_add _ _ _ hs] <;>
+    simp only [show ∀ a : X → K, (msem isReal re blocks leaf).dneg a = -a from fun _ => rfl, modeDiag_neg _ _ hs4,
+      modeDiag_modeDiag _ _ _ hs4 h1, modeDiag_modeDiag _ _ _ hs4 h2, Matrix.diagonal_add, Matrix.diagonal_neg] <;>
+    rfl
+
+/-- `_flip_modes` of scaling, diagonal and adapter operators and the default wrapping into an OperatorAdapter:
+    mode `s` of the flipped operator is mode `s xor t` of the original -/
+theorem flip_scaling_sound (d : Nat) (c : K) (dt t s : Nat) (ht : t < 4) (hs : s < 4) :
+    den S (OpAlgebra.flip S (Op.scaling d c dt) t) (1 <<< s) = den S (Op.scaling d c dt) (1 <<< (s ^^^ t)) := by
+  unfold OpAlgebra.flip scalingFlipFactor
+  rw [den_scaling _ _ _ _ _ _ _ _ hs, den_scaling _ _ _ _ _ _ _ _ (xor_lt4 s hs t ht), flipConj_eval t ht, flipInv_eval t ht,
+    ← modeScalar_modeScalar c s t hs ht]
+  congr 2
+  interval_cases t <;> simp [modeScalar, msem]
+
+theorem flip_diag_sound (dm : Nat) (d : X → K) (t0 dt t s : Nat) (ht0 : t0 < 4) (ht : t < 4) (hs : s < 4) :
+    den S (OpAlgebra.flip S (Op.diag dm d t0 dt) t) (1 <<< s) = den S (Op.diag dm d t0 dt) (1 <<< (s ^^^ t)) := by
+  unfold OpAlgebra.flip
+  rw [diagFlip_eval t0 ht0 t ht, den_diag _ _ _ _ _ _ _ _ _ (xor_lt4 t0 ht0 t ht) hs,
+    den_diag _ _ _ _ _ _ _ _ _ ht0 (xor_lt4 s hs t ht), xor_assoc4 s hs t0 ht0 t ht]
+
+theorem flip_adapter_sound (o : Op K (X → K)) (t0 t s : Nat) (ht0 : t0 < 4) (ht : t < 4) (hs : s < 4) :
+    den S (OpAlgebra.flip S (Op.adapter o t0) t) (1 <<< s) = den S (Op.adapter o t0) (1 <<< (s ^^^ t)) := by
+  unfold OpAlgebra.flip
+  rw [adapterFlip_eval t0 ht0 t ht, den_adapter _ _ _ _ _ _ _ ht0 (xor_lt4 s hs t ht)]
+  by_cases h : t0 ^^^ t = 0
+  · have : t0 = t := (xor_eq_zero4 t0 ht0 t ht).mp h
+    subst this
+    simp only [h, beq_self_eq_true, if_true, xor_self4 s hs t0 ht0]
+  · have hb : ((t0 ^^^ t) == 0) = false := by simpa using h
+    simp only [hb, Bool.false_eq_true, if_false]
+    rw [den_adapter _ _ _ _ _ _ _ (xor_lt4 t0 ht0 t ht) hs]
+    rw [xor_assoc4 s hs t0 ht0 t ht]
+
+end matrix
 
 end NiftyVerif.C01
